@@ -37,6 +37,7 @@ def main(tier):
     chk.run("R-GUARDDEPS", C.guarddeps, cx.cpp, floor=2)
     chk.run("R-INTTEXT", C.inttext, cx.cpp, floor=25)
     chk.run("R-DIGITSEEN", C.digitseen, cx.cpp, floor=3)
+    chk.run("R-CONSTWRITE", B.constwrite, cx.repo, floor=5)
     chk.run("R-LOWESTDIGIT", C.lowestdigit, cx.cpp, floor=12)
     chk.run("R-ENUMTEXT", C.enumtext, cx.cpp, floor=3)
     chk.run("R-ARRAYSEP", C.arraysep, cx.cpp, floor=3)
